@@ -303,9 +303,31 @@ def m_cmp(ex, p, call, k):
     a, b = scalar(ex, p, call.args[0]), scalar(ex, p, call.args[1])
     if isinstance(a, Str) and isinstance(b, Str) and meth in ('eq', 'ne'):
         return k(p, z3.BoolVal((a.s == b.s) == (meth == 'eq')))
+    if not (isinstance(a, z3.ExprRef) and isinstance(b, z3.ExprRef)) and meth in ('eq', 'ne') and re.search(r'<(\w+::)*Option as PartialEq>', call.short):
+        # Option<scalar> == Option<scalar>: same variant and, for Some, equal payloads
+        def as_opt(v):
+            if isinstance(v, Agg) and v.name == 'Option':
+                return (z3.BoolVal(v.variant == 'Some'), ex.deref(p, v.fields[0]) if v.variant == 'Some' and isinstance(v.fields[0], Ptr) else (v.fields[0] if v.variant == 'Some' else None))
+            if isinstance(v, Sym):
+                d = ex.discriminant(v, 'isize')
+                return (d == z3.BitVecVal(1, d.size()), ex.project(VarView(v, 'Some'), ('field', 0, generic_arg(v.ty, 0) or '')))
+            return None
+        oa, ob = as_opt(a), as_opt(b)
+        if oa is not None and ob is not None:
+            pa, pb = oa[1], ob[1]
+            both = z3.And(oa[0], ob[0])
+            if pa is None or pb is None:
+                e = oa[0] == ob[0]
+            elif isinstance(pa, z3.ExprRef) and isinstance(pb, z3.ExprRef) and pa.sort() == pb.sort():
+                e = z3.And(oa[0] == ob[0], z3.Implies(both, pa == pb))
+            else:
+                e = None
+            if e is not None:
+                return k(p, e if meth == 'eq' else z3.Not(e))
     if not (isinstance(a, z3.ExprRef) and isinstance(b, z3.ExprRef)):
-        if meth in ('eq', 'ne'):
-            # equality of two opaque values: an uninterpreted predicate named after the (fully dereferenced) operands
+        if meth in ('eq', 'ne') and (not isinstance(call.callee, str) or ex.resolve(call.callee) is None):
+            # equality of two opaque values (no crate-local impl to execute): an uninterpreted predicate named after the
+            # (fully dereferenced) operands
             def nm(v):
                 for _ in range(4):
                     if isinstance(v, Ptr):
